@@ -166,7 +166,7 @@ func emitMethod(sb *strings.Builder, prog *Prog, dm *DriverMethod, retVars [][]s
 	pre, post := p.hook(prog, "preprocess"), p.hook(prog, "postprocess")
 
 	// ---- reference function ----
-	fmt.Fprintf(sb, "// reference for %s: %s\nfunc ref_%s(w *%s, r *%s%s) (err error) {\n", m.Name, strings.Join(m.NotationLines(), "; "), name, WT, RT, params.String())
+	fmt.Fprintf(sb, "// reference for %s: %s\nfunc ref_%s(w *%s, r *%s, g *%s%s) (err error) {\n", m.Name, strings.Join(m.NotationLines(), "; "), name, WT, RT, WT, params.String())
 	hookCall := func(h *hookInfo) {
 		d, s := "w", "r"
 		if !h.dstPtr {
@@ -199,7 +199,10 @@ func emitMethod(sb *strings.Builder, prog *Prog, dm *DriverMethod, retVars [][]s
 		}
 		i, ok := dm.Chosen[l]
 		if !ok || i < 0 || i >= len(l.Alts) {
+			// outcome left open by the statements: take whatever the generated function produced (g is its
+			// result), at the field's position, so that a postprocess hook sees the same state in both runs
 			loose = append(loose, l)
+			fmt.Fprintf(sb, "\tw.%[1]s = g.%[1]s // open outcome: %s\n", l.Path, strings.ReplaceAll(l.Why, "\n", " "))
 			return
 		}
 		a := l.Alts[i]
@@ -307,7 +310,8 @@ func emitMethod(sb *strings.Builder, prog *Prog, dm *DriverMethod, retVars [][]s
 				call = "ret := " + c + "\n"
 			}
 			if p.DstPtr {
-				call += "\t\t\tif ret == nil {\n\t\t\t\tx.Panic = \"nil result\"\n\t\t\t} else {\n\t\t\t\tgwp = ret\n\t\t\t}\n"
+				// T7: on the error path the destination result is unspecified (nil is fine)
+				call += "\t\t\tif ret == nil {\n\t\t\t\tif gotErr == nil {\n\t\t\t\t\tx.Panic = \"nil result without error\"\n\t\t\t\t}\n\t\t\t} else {\n\t\t\t\tgwp = ret\n\t\t\t}\n"
 			} else {
 				call += "\t\t\twG = ret\n"
 			}
@@ -372,11 +376,8 @@ func emitMethod(sb *strings.Builder, prog *Prog, dm *DriverMethod, retVars [][]s
 	sb.WriteString(setup("\t\t"))
 	sb.WriteString("\t\tvar gotErr, wantErr error\n\t\tx.Begin()\n\t\tfunc() {\n\t\t\tdefer x.Recover()\n\t\t\t" + call + "\t\t}()\n\t\tx.EndGot()\n")
 	sb.WriteString("\t\tif x.Panic != \"\" {\n\t\t\tx.issue(\"panic\", \"\", \"generated function panics: %s\", x.Panic)\n\t\t\treturn\n\t\t}\n")
-	fmt.Fprintf(sb, "\t\tx.Begin()\n\t\twantErr = ref_%s(&wW, &rW%s)\n\t\tx.EndWant()\n", name, argsW.String())
+	fmt.Fprintf(sb, "\t\tx.Begin()\n\t\twantErr = ref_%s(&wW, &rW, gwp%s)\n\t\tx.EndWant()\n", name, argsW.String())
 	sb.WriteString("\t\tif gotErr != nil || wantErr != nil {\n\t\t\tx.issue(\"unexpected-error\", \"\", \"no fault injected but error returned: got %v, reference %v\", gotErr, wantErr)\n\t\t\treturn\n\t\t}\n")
-	for _, l := range loose {
-		fmt.Fprintf(sb, "\t\twW.%[1]s = gwp.%[1]s // outcome left open by the statements: %s\n", l.Path, strings.ReplaceAll(l.Why, "\n", " "))
-	}
 	for _, l := range sliceLeaves {
 		se := p.srcExpr(sliceSrc[l], "rS", "a")
 		se = regexp.MustCompile(`\ba(\d)\b`).ReplaceAllString(se, "a${1}S")
@@ -386,10 +387,8 @@ func emitMethod(sb *strings.Builder, prog *Prog, dm *DriverMethod, retVars [][]s
 	sb.WriteString("\t\tx.CompareDst(gwp, &wW)\n\t\tx.CompareUnchanged(\"source operand\", &rG, &rS)\n")
 	sb.WriteString(unchanged.String())
 	strict := true
-	for _, l := range loose {
-		if l.Explicit != "" {
-			strict = false // which converter/getter serves an open outcome is not known to the reference
-		}
+	if len(loose) > 0 {
+		strict = false // which converter/getter serves an open outcome is not known to the reference
 	}
 	fmt.Fprintf(sb, "\t\tx.CompareCalls(%s, %s, %s, %s, %q, %q, %v)\n", gw, gr, ww, wr, preSite, postSite, strict)
 	for _, l := range sliceLeaves {
